@@ -321,7 +321,11 @@ def run_case(case, ctx: Ctx, loc: str):
     import experiment.model.errors as E
     try:
         exp = _create(case, loc)
-    except E.FlowException as e:
+    except Exception as e:
+        # the statement is about instances that exist; whatever makes the repository refuse to create one (also
+        # defects that belong to other properties, e.g. reference substitution with confusable names) is not judged here
+        if not (isinstance(e, E.FlowException) or type(e).__module__.startswith("experiment.")):
+            raise
         ctx.rec.label("rejected:" + type(e).__name__)
         ctx.rec.extra.setdefault("rejected_examples", [])
         if len(ctx.rec.extra["rejected_examples"]) < 3:
@@ -342,6 +346,7 @@ def run_case(case, ctx: Ctx, loc: str):
         elif op[0] == "cycle":
             cycles += 1
             where = "cycle %d (after %d loop iteration(s))" % (cycles, iterations)
+            ctx.rec.label("load:updates-instance-files" if op[1] else "load:read-only")
             w = snapshot(exp)
             exp.experimentGraph.configuration.store_unreplicated_flowir_to_disk()
             before = _read(path)
